@@ -642,6 +642,8 @@ def gen_dilute(world, draw, profile):
     if ref.size(base, den) == 0:       # a mixture without volume (solids under a density of inf): per mass instead
         den = 'g'
     cur = ref.conc(base, solute, num, den)
+    if not (cur > 0 and math.isfinite(cur)):     # e.g. a solute without volume asked for per volume (density inf)
+        return None
     mode = draw(st.sampled_from(profile.get('dilute_modes', ['lower'] * 6 + ['higher', 'equal'])))
     f = draw(st.floats(0.05, 0.95)) if mode == 'lower' else draw(st.floats(1.05, 1.5)) if mode == 'higher' else 1.0
     c = draw(basic.conc_spelling(cur * f, num, den, cfg.wv))
@@ -669,6 +671,8 @@ def gen_create_solution_from(world, draw, profile):
     if ref.size(base, den) == 0:       # a mixture without volume (solids under a density of inf): per mass instead
         den = 'g'
     cur = ref.conc(base, solute, num, den)
+    if not (cur > 0 and math.isfinite(cur)):     # e.g. a solute without volume asked for per volume (density inf)
+        return None
     f = draw(st.floats(0.05, 0.95)) if draw(st.integers(0, 7)) else draw(st.floats(1.05, 1.5))
     c = draw(basic.conc_spelling(cur * f, num, den, cfg.wv))
     fam = draw(st.sampled_from(['L', 'L', 'g', 'mol']))
